@@ -126,12 +126,22 @@ func parseBitfieldOffset(spec string, width int) (offset int, valid bool) {
 		}
 		offset = int(n) * width
 	} else {
-		n, err := strconv.ParseInt(spec, 10, 32)
+		n, err := strconv.ParseInt(spec, 10, 64)
 		if err != nil {
 			valid = false
 			return
 		}
+		if n < 0 || n >= maxStringLength*8 {
+			valid = false
+			return
+		}
 		offset = int(n)
+	}
+
+	// the field must lie inside the largest string (512 MB = 2^32 bits)
+	if int64(offset)+int64(width) > maxStringLength*8 {
+		valid = false
+		return
 	}
 	valid = true
 	return
